@@ -1,0 +1,96 @@
+//go:build verif
+
+package bloomsearch
+
+// Exported test-only wrappers over the unexported read-path components
+// (family Q of the verification harness). No logic lives here: every method
+// forwards to the engine's own function.
+
+import (
+	"context"
+	"io"
+)
+
+// VerifEmit lets the harness's store wrappers write their own events into the
+// same totally ordered log as the engine's hooks.
+func VerifEmit(kind string, a, b int64, s string) { verifEventS(kind, a, b, s) }
+
+// Constants the models are parametric in.
+const (
+	VerifQueryRowBatchSize   = queryRowBatchSize
+	VerifQueryRowBatchBuffer = queryRowBatchBuffer
+	VerifQueryJobBuffer      = queryJobBuffer
+	VerifQueryFileJobBuffer  = queryFileJobBuffer
+)
+
+// ---- Results (cursor)
+
+func VerifNewResults(ctx context.Context) *Results { return newResults(ctx) }
+
+func (r *Results) VerifID() int64 { return r.verifID }
+
+// VerifInternalCtx is the query's internal context (what workers select on).
+func (r *Results) VerifInternalCtx() context.Context { return r.ctx }
+
+func (r *Results) VerifDeliver(slot *VerifSlot, batch []map[string]any) error {
+	return r.deliver(&slot.s, batch)
+}
+
+func (r *Results) VerifRecordBlockStats(stats BlockStats) { r.recordBlockStats(stats) }
+
+func (r *Results) VerifRecordBlockError(err error) { r.recordBlockError(err) }
+
+func (r *Results) VerifRecordQueryError(err error) { r.recordQueryError(err) }
+
+func (r *Results) VerifMarkWorkersDone() { r.markWorkersDone() }
+
+// VerifRowChanLen is the number of batches buffered in the row channel.
+func (r *Results) VerifRowChanLen() int { return len(r.rowChan) }
+
+// ---- querySlot
+
+type VerifSlot struct{ s querySlot }
+
+func VerifNewSlot(sem chan struct{}, ctx context.Context) *VerifSlot {
+	return &VerifSlot{s: querySlot{sem: sem, ctx: ctx}}
+}
+
+func (v *VerifSlot) Acquire() bool { return v.s.acquire() }
+func (v *VerifSlot) Release()      { v.s.release() }
+func (v *VerifSlot) Held() bool    { return v.s.held }
+
+// VerifQuerySemaphore exposes the engine's global query semaphore.
+func (b *BloomSearchEngine) VerifQuerySemaphore() chan struct{} { return b.querySemaphore }
+
+// VerifQuerySemaphoreLen is the number of query-semaphore slots in use.
+func (b *BloomSearchEngine) VerifQuerySemaphoreLen() int { return len(b.querySemaphore) }
+
+// ---- fileHandlePool
+
+type VerifPool struct{ p *fileHandlePool }
+
+func VerifNewHandlePool(store DataStore) *VerifPool {
+	return &VerifPool{p: newFileHandlePool(store)}
+}
+
+func (v *VerifPool) Retain(pointer []byte)  { v.p.retain(pointer) }
+func (v *VerifPool) Release(pointer []byte) { v.p.release(pointer) }
+func (v *VerifPool) Acquire(ctx context.Context, pointer []byte) (io.ReadSeekCloser, error) {
+	return v.p.acquire(ctx, pointer)
+}
+func (v *VerifPool) Put(pointer []byte, h io.ReadSeekCloser) { v.p.put(pointer, h) }
+func (v *VerifPool) Discard(h io.ReadSeekCloser)             { v.p.discard(h) }
+func (v *VerifPool) CloseAll()                               { v.p.closeAll() }
+
+// VerifPoolState reports, per file, the reference count and the number of idle
+// handles, plus the closed flag.
+func (v *VerifPool) VerifPoolState() (refs map[string]int, idle map[string]int, closed bool) {
+	v.p.mu.Lock()
+	defer v.p.mu.Unlock()
+	refs, idle = map[string]int{}, map[string]int{}
+	for k, e := range v.p.files {
+		refs[k] = e.refs
+		idle[k] = len(e.idle)
+	}
+	return refs, idle, v.p.closed
+}
